@@ -314,9 +314,18 @@ func readBufioSize(reader *bufio.Reader, size int64) ([]byte, error, bool) {
 	read := int64(0)
 	var err error
 	var n int
+	// the count is the script's: read in pieces of bounded size instead of allocating it up front
+	const maxChunk = 64 * 1024
+	var buf []byte
 	for read != size {
-		buf := make([]byte, size-read)
-		n, err = reader.Read(buf)
+		chunk := size - read
+		if chunk > maxChunk {
+			chunk = maxChunk
+		}
+		if int64(len(buf)) < chunk {
+			buf = make([]byte, chunk)
+		}
+		n, err = reader.Read(buf[:chunk])
 		if err != nil {
 			break
 		}
